@@ -133,18 +133,27 @@ package configuration
 //@     invariant[C11.fans.backend] forall j int :: 0 <= j && j <= rangeindex && j < len(config.Fans) ==> fanBackendOK(config, j)
 //@     invariant[C11.fans.loop] forall j int :: 0 <= j && j <= rangeindex && j < len(config.Fans) ==> fanLoopOK(config, j)
 
+// C18: the configuration file must pass the executable's permission test whenever it declares a command fan or sensor
+//@ pure declaresCmd() bool = (exists i int :: 0 <= i && i < len(CurrentConfig.Fans) && CurrentConfig.Fans[i].Cmd != nil) || (exists i int :: 0 <= i && i < len(CurrentConfig.Sensors) && CurrentConfig.Sensors[i].Cmd != nil)
 //@ func containsCmdFan
+//@   props C18
+//@   ensures[C18.cmdfan] result == (exists i int :: 0 <= i && i < len(CurrentConfig.Fans) && CurrentConfig.Fans[i].Cmd != nil)
 //@   modifies nothing
 //@   loop 1 "for _, fanConfig := range CurrentConfig.Fans"
-//@     invariant -1 <= rangeindex
+//@     invariant -1 <= rangeindex && rangeindex < len(CurrentConfig.Fans)
+//@     invariant[C18.cmdfan] forall k int :: 0 <= k && k <= rangeindex ==> CurrentConfig.Fans[k].Cmd == nil
 //@ func containsCmdSensors
+//@   props C18
+//@   ensures[C18.cmdsensor] result == (exists i int :: 0 <= i && i < len(CurrentConfig.Sensors) && CurrentConfig.Sensors[i].Cmd != nil)
 //@   modifies nothing
 //@   loop 1 "for _, sensorConfig := range CurrentConfig.Sensors"
-//@     invariant -1 <= rangeindex
+//@     invariant -1 <= rangeindex && rangeindex < len(CurrentConfig.Sensors)
+//@     invariant[C18.cmdsensor] forall k int :: 0 <= k && k <= rangeindex ==> CurrentConfig.Sensors[k].Cmd == nil
 
 //@ func validateConfig
 //@   params (config, path)
-//@   props C11
+//@   props C11 C18
+//@   ensures[C18.config] result == nil && declaresCmd() ==> path in resolveOK && resolvedPath[path] in statOK && util.permOK(resolvedPath[path])
 //@   requires config != nil
 //@   ensures[C11.accepted] result == nil ==> (forall i int :: 0 <= i && i < len(config.Sensors) ==> sensorOK(config, i)) && (forall i int :: 0 <= i && i < len(config.Curves) ==> curveShapeOK(config, i) && curveRefsOK(config, i)) && (forall i int :: 0 <= i && i < len(config.Fans) ==> fanShapeOK(config, i) && fanBackendOK(config, i))
 //@   ensures[C11.runnable] result == nil ==> (forall i int :: 0 <= i && i < len(config.Curves) ==> curveEvaluable(config, i)) && (forall i int :: 0 <= i && i < len(config.Fans) ==> fanLoopOK(config, i))
